@@ -32,9 +32,50 @@ CO_TYPING = {"list": "List", "set": "typing.Set", "frozenset": "FrozenSet", "deq
              "tuple": "typing.Tuple"}
 CO_CLS = {"list": "Array", "set": "Set", "frozenset": "ImmutableSet", "deque": "Deque", "tuple": "Tuple"}
 
+STRUCTS_MODULE = "_verif_c13_structs"
+STRUCTS_SRC = """from typedpy import Structure
+
+
+class Owner(Structure):
+    name: str
+
+
+class Point(Structure):
+    x: int
+    y: int = 0
+"""
+STRUCT_NAMES = ["Owner", "Point"]
+_STRUCT_DECLS = {}
+
+
+def structs_module():
+    """the Structure classes that spellings may name: ONE helper module, registered in sys.modules and imported by every
+    variant's prelude, so that all variants of a case (and the shared value stream) talk about the same classes"""
+    mod = sys.modules.get(STRUCTS_MODULE)
+    if mod is None:
+        mod = types.ModuleType(STRUCTS_MODULE)
+        mod.__file__ = STRUCTS_MODULE + ".py"
+        sys.modules[STRUCTS_MODULE] = mod
+        exec(compile(STRUCTS_SRC, STRUCTS_MODULE + ".py", "exec"), mod.__dict__)  # pylint: disable=exec-used
+    return mod
+
+
+def struct_decl(name):
+    """wire declaration of a pool class, dumped from the real class"""
+    if name not in _STRUCT_DECLS:
+        mod = structs_module()
+        ctx = dump.Ctx()
+        for n in STRUCT_NAMES:
+            ctx.classes[n] = getattr(mod, n)
+        d = fix_accepts(dump.dump_class(getattr(mod, name), ctx))
+        _STRUCT_DECLS[name] = json.loads(json.dumps(d))
+    return json.loads(json.dumps(_STRUCT_DECLS[name]))
+
+
 PRELUDE = """import typing
 from collections import deque
 from typing import Optional, Union, List, Dict, FrozenSet, Any
+from _verif_c13_structs import Owner, Point
 from typedpy import (Structure, Integer, String, Float, Boolean, Anything, Number, Enum, Array, Set, ImmutableSet,
                      Deque, Tuple, Map, AnyOf, PositiveInt, NegativeInt, NonPositiveInt, NonNegativeInt, PositiveFloat,
                      NegativeFloat, NonPositiveFloat, NonNegativeFloat, Positive, Negative, NonPositive, NonNegative)
@@ -99,6 +140,10 @@ def meaning_decl(m):
         return {"k": "anyOf", "fields": [meaning_decl(m["x"]), {"k": "noneF"}]}
     if t == "alt":
         return {"k": "anyOf", "fields": [meaning_decl(m["x"]), meaning_decl(m["y"])]}
+    if t == "struct":      # a Structure class used as a field type: a reference to that class
+        return struct_decl(m["c"])
+    if t == "tup":         # documented: Tuple[X, Y] = a tuple of exactly that shape
+        return {"k": "tuplePos", "items": [meaning_decl(m["x"]), meaning_decl(m["y"])]}
     raise ValueError(t)
 
 
@@ -149,17 +194,21 @@ def gen_meaning(rng, dg, depth, allow_opt=True):
     r = rng.random()
     if depth <= 0 or r < 0.3:
         q = rng.random()
-        if q < 0.5:
+        if q < 0.45:
             return {"m": "scalar", "k": rng.choice(SCALARS)}
-        if q < 0.85:
+        if q < 0.78:
             return {"m": "lit", "d": gen_lit(rng, dg)}
-        if q < 0.95:
+        if q < 0.87:
+            return {"m": "struct", "c": rng.choice(STRUCT_NAMES)}
+        if q < 0.96:
             return {"m": "bare", "c": rng.choice(COLLS)}
         return {"m": "bareDict"}
-    if r < 0.55:
+    if r < 0.5:
         c = rng.choice(["list", "list", "set", "frozenset", "deque", "tuple"])
         x = gen_hashable(rng, dg) if c in ("set", "frozenset") else gen_meaning(rng, dg, depth - 1)
         return {"m": "coll", "c": c, "x": x}
+    if r < 0.56:
+        return {"m": "tup", "x": gen_meaning(rng, dg, depth - 1), "y": gen_meaning(rng, dg, depth - 1)}
     if r < 0.72:
         return {"m": "dict", "x": gen_hashable(rng, dg), "y": gen_meaning(rng, dg, depth - 1)}
     if r < 0.86 and allow_opt:
@@ -197,11 +246,16 @@ def gen_meaning(rng, dg, depth, allow_opt=True):
 def is_field_expr(sp):
     s = sp["s"]
     if s in ("fcls", "finst", "lit", "bareCls", "bareInst", "sub", "call", "mapBare", "mapInst", "mapSub", "mapCall",
-             "anyOf"):
+             "anyOf", "tupSub", "tupCall"):
         return True
     if s == "pipe":
         return is_field_expr(sp["x"])
     return False
+
+
+def is_field_or_struct(sp):
+    """what `items=` and a plain assignment are documented to take: a Field (class or instance) or a Structure class"""
+    return is_field_expr(sp) or sp["s"] == "scls"
 
 
 def is_plain(sp):
@@ -220,8 +274,8 @@ def ev_kind(sp):
         return "field_cls"
     if is_field_expr(sp):
         return "field_inst"
-    if s in ("builtin", "bareBuiltin", "dictBare", "pep585", "dict585"):
-        return "plain"
+    if s in ("builtin", "bareBuiltin", "dictBare", "pep585", "dict585", "scls", "tup585"):
+        return "plain"          # (a Structure class has no `|` of its own: type.__or__)
     if s in ("pipe", "union") and same_type_obj(sp["x"], sp["y"]):
         return ev_kind(sp["x"])          # `Union[bool, bool]` / `bool | bool` IS `bool`
     if s == "pipe":
@@ -298,24 +352,36 @@ def spell(m, rng, style):
         form = {"native": "mapBare", "builtin": "dictBare", "typing": "tDictBare", "call": "mapInst",
                 "inst": "mapInst", "pep604": "dictBare"}[st]
         return {"s": form}
+    if t == "struct":
+        return {"s": "scls", "c": m["c"], "d": struct_decl(m["c"]), "len": len(m["c"])}
     if t == "coll":
         form = {"native": "sub", "builtin": "pep585", "typing": "typingG", "call": "call", "inst": "sub",
                 "pep604": "pep585"}[st]
         x = spell(m["x"], rng, style)
-        if form == "call" and not is_field_expr(x):
+        if form == "call" and not is_field_or_struct(x):
             x = spell(m["x"], rng, rng.choice(["native", "call", "inst"]))
-            if not is_field_expr(x):
+            if not is_field_or_struct(x):
                 form = "sub"
         return {"s": form, "c": m["c"], "x": x}
     if t == "dict":
         form = {"native": "mapSub", "builtin": "dict585", "typing": "dictTyping", "call": "mapCall", "inst": "mapSub",
                 "pep604": "dict585"}[st]
         x, y = spell(m["x"], rng, style), spell(m["y"], rng, style)
-        if form == "mapCall" and not (is_field_expr(x) and is_field_expr(y)):
+        if form == "mapCall" and not (is_field_or_struct(x) and is_field_or_struct(y)):
             x = spell(m["x"], rng, rng.choice(["native", "call", "inst"]))
             y = spell(m["y"], rng, rng.choice(["native", "call", "inst"]))
-            if not (is_field_expr(x) and is_field_expr(y)):
+            if not (is_field_or_struct(x) and is_field_or_struct(y)):
                 form = "mapSub"
+        return {"s": form, "x": x, "y": y}
+    if t == "tup":
+        form = {"native": "tupSub", "builtin": "tup585", "typing": "tupTyping", "call": "tupCall", "inst": "tupSub",
+                "pep604": "tup585"}[st]
+        x, y = spell(m["x"], rng, style), spell(m["y"], rng, style)
+        if form == "tupCall" and not (is_field_or_struct(x) and is_field_or_struct(y)):
+            x = spell(m["x"], rng, rng.choice(["native", "call", "inst"]))
+            y = spell(m["y"], rng, rng.choice(["native", "call", "inst"]))
+            if not (is_field_or_struct(x) and is_field_or_struct(y)):
+                form = "tupSub"
         return {"s": form, "x": x, "y": y}
     if t == "opt":
         x = spell(m["x"], rng, style)
@@ -440,6 +506,16 @@ def render(sp, default=None):
         if sp["y"]["s"] == "pipe":
             r = f"({r})"
         return f"{render(sp['x'])} | {r}"
+    if s == "scls":
+        return sp["c"]
+    if s == "tup585":
+        return f"tuple[{render(sp['x'])}, {render(sp['y'])}]"
+    if s == "tupTyping":
+        return f"typing.Tuple[{render(sp['x'])}, {render(sp['y'])}]"
+    if s == "tupSub":
+        return f"Tuple[{render(sp['x'])}, {render(sp['y'])}]"
+    if s == "tupCall":
+        return f"Tuple(items=[{render(sp['x'])}, {render(sp['y'])}]{', ' + kw if kw else ''})"
     raise ValueError(s)
 
 
@@ -453,7 +529,7 @@ def fill_lens(sp, default=None):
     return sp
 
 
-KW_ALLOWED = ("finst", "lit", "bareInst", "call", "mapCall", "mapInst")
+KW_ALLOWED = ("finst", "lit", "bareInst", "call", "mapCall", "mapInst", "tupCall")
 
 
 def dflt_text(dflt):
@@ -553,6 +629,11 @@ def same_type_obj(a, b):
     return json.dumps(a, sort_keys=True) == json.dumps(b, sort_keys=True)
 
 
+def struct_first_pipe(sp):
+    """`Owner | ...` between plain types: a types.UnionType whose first member is a Structure class"""
+    return sp["s"] == "pipe" and (sp["x"]["s"] == "scls" or struct_first_pipe(sp["x"]))
+
+
 def union_like(sp):
     return sp["s"] in ("optional", "union") or (sp["s"] == "pipe" and not is_field_expr(sp))
 
@@ -569,6 +650,13 @@ def features(v, f, ann_len):
             out.append("typing-union-duplicate")     # `Union[int, int]` / `int | int` is just `int`
         if (n["s"] in ("optional", "union") or plain_pipe) and any(union_like(n[k]) for k in ("x", "y") if k in n):
             out.append("typing-union-flattened")
+        # `Array[Owner | None]`, `AnyOf[Owner | int, X]`: a Structure-first PEP 604 union as argument of a typedpy field
+        if n["s"] in ("sub", "mapSub", "anyOf", "tupSub") and any(struct_first_pipe(n[k]) for k in ("x", "y") if k in n):
+            out.append("pep604-structure-first-nested")
+        # `Tuple(items=Owner)` / `Tuple(items=[X, Owner])`: Tuple.__init__ converts Field classes only
+        if (n["s"] == "call" and n["c"] == "tuple" and n["x"]["s"] == "scls") or \
+                (n["s"] == "tupCall" and "scls" in (n["x"]["s"], n["y"]["s"])):
+            out.append("tuple-items-structure-class")
     d = f.get("dflt")
     if d and d["how"] == "kw" and not _truthy(d["v"]):
         out.append("falsy-default-kw")
@@ -587,12 +675,12 @@ def features(v, f, ann_len):
 
 def documented(f):
     """the spelling only uses documented forms (otherwise it is corresponded but not claimed)"""
-    if f["mode"] == "assign" and not is_field_expr(f["ty"]):
+    if f["mode"] == "assign" and not is_field_or_struct(f["ty"]):
         return False
     for n in _walk(f["ty"]):
-        if n["s"] == "call" and not is_field_expr(n["x"]):
+        if n["s"] == "call" and not is_field_or_struct(n["x"]):
             return False
-        if n["s"] == "mapCall" and not (is_field_expr(n["x"]) and is_field_expr(n["y"])):
+        if n["s"] in ("mapCall", "tupCall") and not (is_field_or_struct(n["x"]) and is_field_or_struct(n["y"])):
             return False
         if n["s"] == "none":
             pass
@@ -640,7 +728,7 @@ NODEF = _NoDefault()      # no default at all (Python `None` below is the litera
 RANDOM_DEFAULT = object()
 
 
-def field_variants(rng, vg, name, m, n_random, extra_tys=(), default=RANDOM_DEFAULT):
+def field_variants(rng, vg, name, m, n_random, extra_tys=(), default=RANDOM_DEFAULT, required_none=None):
     """spellings of one field: a list of FieldSp wire objects; [0] is the typedpy-native reference;
     `extra_tys` = directed type spellings to include as annotations; `default` = NODEF, a wire scalar, or None for
     the literal default `= None` (validated like any default, but "no default" afterwards: for a meaning with a None
@@ -659,6 +747,11 @@ def field_variants(rng, vg, name, m, n_random, extra_tys=(), default=RANDOM_DEFA
             if default is None:
                 default = NODEF
     force_optional = not has_none and default is NODEF and rng.random() < 0.15
+    # a None alternative WITHOUT optionality: `a: AnyOf[T, None]` / `a = T | None` (typedpy fields, no `_optional`) is a
+    # REQUIRED field that admits an explicit None; its equivalent spellings are the field expressions, by annotation and
+    # by assignment (typing / PEP-604 unions of plain types are documented to be optional by themselves: left out)
+    if required_none is None:
+        required_none = has_none and default is NODEF and rng.random() < 0.15
     out, seen = [], set()
 
     def hows_for(mode, ty):
@@ -681,6 +774,14 @@ def field_variants(rng, vg, name, m, n_random, extra_tys=(), default=RANDOM_DEFA
             f["dflt"] = {"how": how, "v": default, "len": len(py_literal(default))}
         kwtext = dflt_text(f["dflt"]) if how in ("kw", "kwF") else None
         fill_lens(f["ty"], kwtext)
+        if required_none:
+            if auto_optional(mode, ty):
+                return
+            key = json.dumps(f, sort_keys=True)
+            if key not in seen:
+                seen.add(key)
+                out.append(f)
+            return
         # a meaning with a None alternative is an optional field in every spelling: by itself where typedpy
         # documents that (typing / PEP-604 union with a None member), through `_optional` otherwise
         if (has_none and not auto_optional(mode, ty)) or force_optional:
@@ -696,7 +797,7 @@ def field_variants(rng, vg, name, m, n_random, extra_tys=(), default=RANDOM_DEFA
     for st in styles:
         ty = spell(m, rng, st)
         modes = ["ann"]
-        if is_field_expr(ty) and (st in ("native", "call", "inst") or rng.random() < 0.5):
+        if is_field_or_struct(ty) and (st in ("native", "call", "inst") or rng.random() < 0.5):
             modes.append("assign")
         elif rng.random() < 0.03:
             modes.append("assign")      # undocumented: corresponded only
@@ -704,12 +805,13 @@ def field_variants(rng, vg, name, m, n_random, extra_tys=(), default=RANDOM_DEFA
             for how in hows_for(mode, ty):
                 add(json.loads(json.dumps(ty)), mode, how)
     for ty in extra_tys:
-        for how in hows_for("ann", ty):
-            add(json.loads(json.dumps(ty)), "ann", how)
+        for mode in ["ann"] + (["assign"] if required_none and is_field_or_struct(ty) else []):
+            for how in hows_for(mode, ty):
+                add(json.loads(json.dumps(ty)), mode, how)
     return out
 
 
-def gen_case(rng, tier, ci, meanings=None, extra_tys=None, cap=None, defaults=None):
+def gen_case(rng, tier, ci, meanings=None, extra_tys=None, cap=None, defaults=None, required_none=None):
     """`meanings` / `extra_tys` (per field) fix the class for the directed stream; default: random"""
     dg = gen.DeclGen(rng, max_depth=1)
     vg = gen.ValGen(rng)
@@ -721,8 +823,9 @@ def gen_case(rng, tier, ci, meanings=None, extra_tys=None, cap=None, defaults=No
     names = rng.sample(["a", "b", "c", "d", "e1", "f_2"], n_fields)
     extra_tys = extra_tys or [()] * n_fields
     defaults = defaults or [RANDOM_DEFAULT] * n_fields
-    per_field = [field_variants(rng, vg, nm, m, 3 if tier == "quick" else 5, ex, df)
-                 for nm, m, ex, df in zip(names, meanings, extra_tys, defaults)]
+    required_none = required_none or [None] * n_fields
+    per_field = [field_variants(rng, vg, nm, m, 3 if tier == "quick" else 5, ex, df, rn)
+                 for nm, m, ex, df, rn in zip(names, meanings, extra_tys, defaults, required_none)]
     # class variants: reference first, then every field variant at least once, then random combinations
     combos = [tuple(0 for _ in names)]
     longest = max(len(p) for p in per_field)
@@ -801,8 +904,18 @@ def gen_case(rng, tier, ci, meanings=None, extra_tys=None, cap=None, defaults=No
 
 
 def _loadable(kw):
-    s = json.dumps(kw)
-    return '"o"' not in s and '"e"' not in s
+    """values the harness can build for every variant: no enum members, instances of the pool classes only"""
+    def ok(x):
+        if isinstance(x, list):
+            return all(ok(y) for y in x)
+        if isinstance(x, dict):
+            if "e" in x:
+                return False
+            if "o" in x:
+                return x["o"][0] in STRUCT_NAMES and ok(x["o"][1])
+            return all(ok(y) for y in x.values())
+        return True
+    return ok(kw)
 
 
 def union_spellings(xs, ys):
@@ -838,6 +951,13 @@ def directed_cases(rng, tier):
         two = union_spellings(ts, [none]) + union_spellings([none], ts)
         cases.append(gen_case(rng, tier, len(cases), meanings=[{"m": "opt", "x": t}, other],
                               extra_tys=[two, ()], cap=60))
+    for t in picks[: (2 if tier == "quick" else len(picks))]:
+        # REQUIRED field with a None alternative (typedpy spellings only, no `_optional`): annotation vs assignment
+        ts = [spell(t, rng, st) for st in ("native", "inst", "builtin")]
+        ts = [x for i, x in enumerate(ts) if x not in ts[:i]]
+        two = [sp for sp in union_spellings(ts, [none]) + union_spellings([none], ts) if is_field_expr(sp)]
+        cases.append(gen_case(rng, tier, len(cases), meanings=[{"m": "opt", "x": t}, other],
+                              extra_tys=[two, ()], cap=40, required_none=[True, False]))
     for t in picks[: (2 if tier == "quick" else len(picks))]:
         u = rng.choice([p for p in pool if top_tag(p) != top_tag(t)])
         ts, us = [spell(t, rng, st) for st in ("builtin", "native")], [spell(u, rng, st) for st in ("builtin", "native")]
@@ -942,6 +1062,40 @@ def factory_cases(rng, tier):
     return cases
 
 
+def struct_model_cases(rng, tier):
+    """Directed stream (modelled): fields whose type is a Structure class of the pool (`Owner`, `Point`) - alone, optional,
+    as an alternative on either side, as element of list / tuple / deque / dict - and two-element tuples, each in every
+    style (name as annotation / plain assignment / item of Array[...] / list[...] / List[...] / `items=`; tuple[X, Y] /
+    typing.Tuple[X, Y] / Tuple[X, Y] / Tuple(items=[X, Y])) next to a plain second field."""
+    int_, str_ = {"m": "scalar", "k": "int"}, {"m": "scalar", "k": "str"}
+
+    def own():
+        return {"m": "struct", "c": rng.choice(STRUCT_NAMES)}
+    must = [{"m": "coll", "c": "tuple", "x": own()}, own(), {"m": "tup", "x": int_, "y": own()}]
+    pool = [{"m": "opt", "x": own()}, {"m": "alt", "x": own(), "y": int_}, {"m": "alt", "x": int_, "y": own()},
+            {"m": "coll", "c": "list", "x": own()}, {"m": "coll", "c": "deque", "x": own()},
+            {"m": "dict", "x": str_, "y": own()}, {"m": "tup", "x": int_, "y": str_},
+            {"m": "tup", "x": {"m": "coll", "c": "list", "x": int_}, "y": {"m": "opt", "x": str_}},
+            {"m": "opt", "x": {"m": "coll", "c": "list", "x": own()}}, {"m": "opt", "x": {"m": "tup", "x": int_, "y": str_}}]
+    must.append({"m": "coll", "c": "list", "x": {"m": "opt", "x": own()}})
+    picks = must + (pool if tier != "quick" else rng.sample(pool, 3))
+    other = {"m": "scalar", "k": rng.choice(["str", "int"])}
+    none = {"s": "none"}
+    cases = []
+    for m in picks:
+        xs = [spell(m, rng, st) for st in STYLES]
+        if m["m"] == "coll" and m["x"]["m"] == "opt":      # Array[Owner | None], Array[None | Owner], list[Owner | None]
+            o = spell(m["x"]["x"], rng, "native")
+            xs += [{"s": form, "c": m["c"], "x": {"s": "pipe", "x": a, "y": b}}
+                   for form in ("sub", "pep585", "typingG") for a, b in ((o, none), (none, o))]
+        if m["m"] == "opt":
+            ts = [spell(m["x"], rng, st) for st in ("builtin", "native", "typing")]
+            xs += union_spellings(ts, [none]) + union_spellings([none], ts)
+        xs = [x for i, x in enumerate(xs) if x not in xs[:i]]
+        cases.append(gen_case(rng, tier, len(cases), meanings=[m, other], extra_tys=[xs, ()], cap=40))
+    return cases
+
+
 # ------------------------------------------------------------------ Structure-valued fields (oracle only)
 
 STRUCT_PRELUDE = """
@@ -974,6 +1128,40 @@ STRUCT_FAMILIES = {
 }
 STRUCT_FACTORY = {"owner": "_oone()", "opt-owner": "_oone()", "owners": "_olist()", "opt-owners": "_olist()"}
 
+# date / time types (datetime.date ~ DateField, datetime.datetime ~ DateTime, datetime.time ~ TimeField): oracle only -
+# the Lean declaration type has no date fields
+DATE_PRELUDE = """
+import datetime
+from typedpy.extfields import DateField, DateTime, TimeField
+"""
+DATE_FAMILIES = {
+    "date": ["a: DateField", "a = DateField", "a: datetime.date", "a: DateField()", "a = DateField()", "a: Union[datetime.date]"],
+    "datetime": ["a: DateTime", "a = DateTime", "a: datetime.datetime", "a: DateTime()", "a = DateTime()"],
+    "time": ["a: TimeField", "a = TimeField", "a: datetime.time", "a: TimeField()", "a = TimeField()"],
+    "opt-date": ["a: AnyOf[DateField, None] #opt", "a = AnyOf[DateField, None] #opt", "a: Optional[datetime.date]",
+                 "a: datetime.date | None", "a: None | datetime.date", "a: Union[None, datetime.date]", "a: DateField | None #opt",
+                 "a: Optional[DateField]"],
+    "dates": ["a: Array[DateField]", "a = Array[DateField]", "a: list[datetime.date]", "a: List[datetime.date]",
+              "a: Array(items=DateField)", "a: Array[datetime.date]", "a: list[DateField]"],
+    "date-or-int": ["a: AnyOf[DateField, Integer]", "a: Union[datetime.date, int]", "a: datetime.date | int", "a: DateField | int",
+                    "a: DateField | Integer", "a = AnyOf[DateField, Integer]"],
+    "date-by-str": ["a: Map[String, DateField]", "a: dict[str, datetime.date]", "a: Dict[str, datetime.date]",
+                    "a = Map(items=[String, DateField])"],
+    "date-time-pair": ["a: Tuple[DateField, TimeField]", "a: tuple[datetime.date, datetime.time]",
+                       "a: typing.Tuple[datetime.date, datetime.time]", "a = Tuple(items=[DateField, TimeField])"],
+}
+
+# MUTABLE defaults (list / dict / set literals): "Got a mutable value as default. This is a bug" is raised on some paths only
+MUTABLE_FAMILIES = {
+    "list-default": ["a: Array = [1]", "a: list = [1]", "a: List = [1]", "a: Array() = [1]", "a = Array(default=[1])",
+                     "a: Array(default=[1])"],
+    "int-list-default": ["a: Array[Integer] = [1]", "a: list[int] = [1]", "a: List[int] = [1]",
+                         "a = Array(items=Integer, default=[1])", "a: Array(items=Integer, default=[1])"],
+    "empty-list-default": ["a: Array = []", "a: list = []", "a: List = []", "a = Array(default=[])"],
+    "map-default": ["a: Map = {'k': 1}", "a: dict = {'k': 1}", "a: Dict = {'k': 1}", "a: Map() = {'k': 1}",
+                    "a = Map(default={'k': 1})"],
+}
+
 
 def struct_cases(rng, tier):
     """Oracle-only stream (Structure classes are not in the modelled spelling grammar): fields whose type is a
@@ -1002,11 +1190,28 @@ def struct_cases(rng, tier):
                                      "site": "plain"})
             cases.append({"suite": "elab", "oracle_only": True, "family": fam, "factory": with_factory,
                           "variants": variants})
+    # date / time types and mutable defaults
+    dfams = sorted(DATE_FAMILIES)
+    if tier == "quick":
+        dfams = ["date", "opt-date"] + rng.sample([f for f in dfams if f not in ("date", "opt-date")], 2)
+    mfams = sorted(MUTABLE_FAMILIES) if tier != "quick" else ["list-default"] + rng.sample(sorted(MUTABLE_FAMILIES)[:-1] + ["map-default"], 1)
+    for kind, fams_, table, site_ in (("date", dfams, DATE_FAMILIES, "datetime"), ("mutable", mfams, MUTABLE_FAMILIES, "mutable-default")):
+        for fam in fams_:
+            variants = []
+            for sp in table[fam]:
+                opt = sp.endswith("#opt")
+                decl = sp.replace(" #opt", "")
+                for future in (False, True):
+                    variants.append({"future": future, "body": [decl, "b: str"] + (["_optional = ['a']"] if opt else []),
+                                     "site": site_})
+            cases.append({"suite": "elab", "oracle_only": True, "family": fam, "factory": False, "kind": kind,
+                          "variants": variants})
     return cases
 
 
 def run_struct_case(case):
     from typedpy import Serializer
+    structs_module()
     out = []
     for v in case["variants"]:
         res = {}
@@ -1014,7 +1219,7 @@ def run_struct_case(case):
         modname = f"_verif_c13_smod_{_MOD_COUNTER[0]}"
         mod = types.ModuleType(modname)
         sys.modules[modname] = mod
-        src = (("from __future__ import annotations\n" if v["future"] else "") + PRELUDE + STRUCT_PRELUDE
+        src = (("from __future__ import annotations\n" if v["future"] else "") + PRELUDE + STRUCT_PRELUDE + DATE_PRELUDE
                + "\n\nclass K(Structure):\n" + "".join(f"    {l}\n" for l in v["body"]))
         res["src"] = "; ".join(v["body"]) + (" [future]" if v["future"] else "")
         for clear in getattr(typing, "_cleanups", []):
@@ -1026,6 +1231,14 @@ def run_struct_case(case):
             res["required"] = sorted(K._required)
             values = {"owner": Owner(name="x"), "dict": {"name": "x"}, "none": None, "int": 1, "str": "s",
                       "owners": [Owner(name="x"), Owner(name="y")], "empty": [], "ints": [1], "mixed": [Owner(name="x"), 1]}
+            if case.get("kind") == "date":
+                import datetime as _dt
+                d0, t0 = _dt.date(2020, 1, 2), _dt.time(3, 4, 5)
+                values = {"date": d0, "datetime": _dt.datetime(2020, 1, 2, 3, 4, 5), "time": t0, "iso": "2020-01-02",
+                          "isot": "03:04:05", "junk": "x", "int": 1, "none": None, "dates": [d0, d0], "empty": [],
+                          "mixed": [d0, 1], "map": {"k": d0}, "badmap": {"k": 1}, "pair": (d0, t0), "badpair": (t0, d0)}
+            elif case.get("kind") == "mutable":
+                values = {"ints": [1, 2], "empty": [], "none": None, "int": 1, "map": {"z": 2}, "strs": ["a"]}
             beh = {}
             for tag, val in list(values.items()) + [("missing", None)]:
                 kw = {"b": "t"} if tag == "missing" else {"a": val, "b": "t"}
@@ -1035,6 +1248,18 @@ def run_struct_case(case):
                 except Exception as e:  # pylint: disable=broad-except
                     beh[tag] = "raised " + err_name(e)
             res["beh"] = beh
+            if case.get("kind") == "mutable" and "a" in res["fields"]:
+                # the default is handed out per instance (mutating one instance's value must not leak)
+                try:
+                    x1 = K(b="t")
+                    first = json.dumps(Serializer(x1).serialize(), sort_keys=True, default=repr)
+                    if hasattr(x1.a, "append"):
+                        x1.a.append(99)
+                    elif isinstance(x1.a, dict):
+                        x1.a["zz"] = 99
+                    res["beh"]["default"] = [first, json.dumps(Serializer(K(b="t")).serialize(), sort_keys=True, default=repr)]
+                except Exception as e:  # pylint: disable=broad-except
+                    res["beh"]["default"] = "raised " + err_name(e)
             if case["factory"] and "a" in res["fields"]:
                 try:
                     x1, x2 = K(b="t"), K(b="t")
@@ -1146,7 +1371,7 @@ def scope_cases(rng, tier):
 
 def gen_cases(rng, tier, n):
     return (directed_cases(rng, tier) + single_arg_cases(rng, tier) + default_cases(rng, tier)
-            + factory_cases(rng, tier) + struct_cases(rng, tier) + scope_cases(rng, tier)
+            + factory_cases(rng, tier) + struct_cases(rng, tier) + struct_model_cases(rng, tier) + scope_cases(rng, tier)
             + [gen_case(rng, tier, i) for i in range(n)])
 
 
@@ -1165,6 +1390,7 @@ def define(v):
     mod.__file__ = modname + ".py"
     sys.modules[modname] = mod
     src = variant_source(v)
+    structs_module()
     # typing memoises `List[...]` etc. by `==` of the arguments, and `float | None == Optional[float]`: without
     # this, `List[float | None]` silently evaluates to an earlier `List[Optional[float]]` of the same process
     for clear in getattr(typing, "_cleanups", []):
@@ -1245,7 +1471,7 @@ def factory_probe(cls, fields, probe_kw, ctx):
 
 
 def run_variant(v, kws, ctx, probe_kw=None):
-    from typedpy import Serializer
+    from typedpy import Serializer, Deserializer, structure_to_schema
     res = {"src": variant_source(v)}
     try:
         cls, modname = define(v)
@@ -1271,6 +1497,7 @@ def run_variant(v, kws, ctx, probe_kw=None):
         res["ann_text"] = {f["name"]: ann.get(f["name"]) for f in v["fields"]
                            if f["mode"] == "ann" and isinstance(ann.get(f["name"]), str)}
         beh = []
+        n_deser = 0
         for kw in kws:
             try:
                 args = {k: dump.load_value(x, ctx) for k, x in kw}
@@ -1284,11 +1511,26 @@ def run_variant(v, kws, ctx, probe_kw=None):
                 continue
             r = {"ok": dump.canon(dump.dump_value(x, ctx))}
             try:
-                r["ser"] = json.dumps(Serializer(x).serialize(), sort_keys=True, default=repr)
+                doc = Serializer(x).serialize()
+                r["ser"] = json.dumps(doc, sort_keys=True, default=repr)
+                if n_deser < 4 and not ffields:     # ... and back: Deserializer(K) on what was serialized (products of a
+                    # stateful default factory differ from call to call by design: not compared there)
+                    n_deser += 1
+                    try:
+                        y = Deserializer(cls).deserialize(json.loads(r["ser"]))
+                        r["deser"] = dump.canon(dump.dump_value(y, ctx))
+                    except Exception as e:  # pylint: disable=broad-except
+                        # with several fields the first error depends on the definition order, which annotation and
+                        # assignment spellings of different fields legitimately change: only "it raises" is compared
+                        r["deser"] = "raised " + (err_name(e) if len(v["fields"]) == 1 else "")
             except Exception as e:  # pylint: disable=broad-except
                 r["ser_err"] = type(e).__name__
             beh.append(r)
         res["beh"] = beh
+        try:
+            res["schema"] = json.dumps(structure_to_schema(cls), sort_keys=True, default=repr)
+        except Exception as e:  # pylint: disable=broad-except
+            res["schema"] = "raised " + err_name(e)
     finally:
         sys.modules.pop(modname, None)
     return res
@@ -1298,6 +1540,9 @@ def run_impl(case):
     if case.get("oracle_only"):
         return run_struct_case(case)
     ctx = make_ctx()
+    mod = structs_module()
+    for n in STRUCT_NAMES:
+        ctx.classes[n] = getattr(mod, n)
     return {"variants": [run_variant(v, case["kws"], ctx, case.get("probe_kw")) for v in case["variants"]]}
 
 
@@ -1380,10 +1625,12 @@ def field_features(case, model, i):
 
 
 PRIORITY = ["quoted-under-future-import", "quoted-annotation-50", "string-annotation-enclosing-scope",
-            "falsy-default-kw", "typing-union-duplicate", "typing-union-flattened"]
+            "falsy-default-kw", "tuple-items-structure-class", "pep604-structure-first-nested", "typing-union-duplicate",
+            "typing-union-flattened"]
 
 CAUSES = {
-    "definition-error": ["string-annotation-enclosing-scope", "falsy-default-kw"],
+    "definition-error": ["string-annotation-enclosing-scope", "tuple-items-structure-class",
+                         "pep604-structure-first-nested", "falsy-default-kw"],
     "field-dropped": ["quoted-under-future-import", "quoted-annotation-50"],
     "error-class-differs": ["typing-union-duplicate"],
 }
@@ -1424,9 +1671,13 @@ def compare_variants(a, b):
                 ph = "error-class-differs"
             elif x.get("ok") != y.get("ok"):
                 ph = "normal-form-differs"
-            else:
+            elif x.get("ser") != y.get("ser") or x.get("ser_err") != y.get("ser_err"):
                 ph = "serialization-differs"
+            else:
+                ph = "deserialization-differs"
             return ph, f"kwargs #{j}: {json.dumps(x)[:200]} vs {json.dumps(y)[:200]}"
+    if a.get("schema") != b.get("schema"):
+        return "schema-differs", f"structure_to_schema: {str(a.get('schema'))[:220]} vs {str(b.get('schema'))[:220]}"
     if ("undumpable" in a) != ("undumpable" in b):      # same behaviour on the stream, but not the same kind of field
         return "field-kind-differs", f"{a.get('undumpable') or b.get('undumpable')}"
     return None
@@ -1466,7 +1717,9 @@ def oracle(case, impl, model):
             have_def = {n: x for n, x in iv["cls"]["defaults"]}
             for f, mf in zip(v["fields"], mv["fields"]):
                 m = mf["meaning"]
-                if not mf["supported"] or "err" in m or "dropped" in m:
+                if not mf["supported"] and mf.get("flat"):
+                    m = mf["flat"]       # directly nested Union / Optional: the flattened meaning (C13.elabField_flatten)
+                elif not mf["supported"] or "err" in m or "dropped" in m:
                     continue
                 ffeats = features(v, f, mf["annLen"])
                 nm = f["name"]
@@ -1509,6 +1762,17 @@ def tags(case, impl, model):
         if v["future"]:
             out.append("future_variant")
             break
+    if model and "out" in model:
+        if any(mf.get("flat") for mv in model["out"]["variants"] for mf in mv["fields"]):
+            out.append("flattened_union_meaning_checked")
+    for _, m in case["meanings"]:
+        js = json.dumps(m)
+        if '"struct"' in js:
+            out.append("structure_class_field")
+        if '"tup"' in js:
+            out.append("two_tuple")
+    if any(v.get("required") is not None for v in case["variants"]):
+        out.append("explicit_required")
     return out
 
 
